@@ -13,6 +13,7 @@ import (
 	"io"
 	"os"
 	"os/exec"
+	"runtime/debug"
 	"strings"
 	"syscall"
 	"time"
@@ -55,8 +56,22 @@ type workerReq struct {
 	Raw  json.RawMessage `json:",omitempty"`
 }
 
+// after this many worker deaths in one run the remaining cases are not run any more (each death is
+// already a reported failure; a change that kills every case must not take hours to report)
+const maxDeaths = 25
+
+var deaths = 0
+
 // callWorker sends one request and waits for one line.
-func callWorker(req workerReq) (map[string]any, string) {
+func callWorker(req workerReq) (m map[string]any, death string) {
+	if deaths >= maxDeaths {
+		return map[string]any{"stderr": "not run: 25 worker processes already ended abnormally in this run"}, "not-run-after-deaths"
+	}
+	defer func() {
+		if death != "" {
+			deaths++
+		}
+	}()
 	if wp == nil {
 		wp = startWorker()
 	}
@@ -120,6 +135,7 @@ func workerMain() {
 	// hard address-space limit for the worker: runaway allocations end the worker, not the machine
 	lim := syscall.Rlimit{Cur: 6 << 30, Max: 6 << 30}
 	syscall.Setrlimit(syscall.RLIMIT_AS, &lim)
+	debug.SetMaxStack(256 << 20) // runaway recursion ends the worker in a second, not after 1 GB of stack
 	sc := bufio.NewScanner(os.Stdin)
 	sc.Buffer(make([]byte, 1<<20), 1<<28)
 	w := bufio.NewWriterSize(os.Stdout, 1<<20)
